@@ -144,6 +144,26 @@ def check(ctx):
     SP.fork_run(ctx, prog)
     exit_obligations(ctx, Ff, rf, "process_fork")
     protocol(ctx, rf, Ff, "process_fork")
+    # ---- C04.E4m: the same with the call that restores the signal mask allowed to fail (the other runs take it to succeed)
+    Im = new_interp(prog, extra_models={"read": m_read_errpipe})
+    Im.hooks_call.append(errpipe_hook)
+    Im.restore_may_fail = True
+    rm = Im.run(Ff)
+    ctx.stats("E-ABS", Im.stats)
+    seen_m = set()
+    for st, rv in rm.exits:
+        c = S.classify_fork_exit(st, rv)
+        site, node = ret_site(Ff, st)
+        key = (site, c, show(rv), st.mon.get("proc"), tuple(sorted((str(k), v) for k, v in st.res.items() if k[0] == "pid")))
+        if key in seen_m:
+            continue
+        seen_m.add(key)
+        ctx.ob("C04.E4m", site + " [%s]" % (c or "unclassified"), "also when restoring the signal mask fails, process_fork ends in one of: "
+               "failed before fork / child returns 0 / parent returns the pid / parent returns <0 with the child reaped - never a "
+               "negative return with a child that runs on", c is not None,
+               {"returns": show(rv), "side": st.mon.get("proc"), "children": {str(k): v for k, v in st.res.items() if k[0] == "pid"},
+                "failed": st.mon.get("failed")}, nontrivial=True)
+    ctx.floor("C04.E4m", 4)
     # ---- process_start with fork summarised
     Fs = prog.fn("process_start")
     ov = dict(S.HEAP_HELPERS)
